@@ -19,7 +19,9 @@ try:
     m = json.load(open(os.path.join(src, "meta.json")))
 except Exception:
     pass
-m.update({"property": pid, "origin": "independent sub-agent given only the property text and a scratch worktree (/tmp/wt_%s)" % pid,
+import subprocess
+base = subprocess.run(["git", "-C", "/tmp/wt_%s" % pid, "log", "--format=%h", "-1"], capture_output=True, text=True).stdout.strip()
+m.update({"property": pid, "base_commit": base, "origin": "independent sub-agent given only the property text and a scratch worktree (/tmp/wt_%s)" % pid,
           "confirmed_by_me": {"how": "tools/confirm_seeded.sh %s: cargo test --workspace --no-fail-fast --offline in the scratch worktree with regenerated test parsers (all pass); run.sh exits non-zero with the change, 0 after git apply -R" % pid},
           "checks_run": "tools/mutant_eval.sh seeded/%s/patch.diff quick %s (git -C /repo apply; ./vf check; git -C /repo checkout -- .)" % (name, caught),
           "caught_by": caught.split(","), "missed_by_first_version_of_the_check": missed, "note": note})
